@@ -35,6 +35,10 @@ def cases(tier, seed):
                  names=NAMES, payload="affine", base_blocks=(1, 3) if bf == 4 else (2, 4))
         if i % 4 == 3:
             g["full_refine"] = True
+        if i % 7 == 3:      # odd base grid, blocking factor 1: boxes one cell thick, planes through their centres
+            g.update(bf=1, base=[5, 6, 7] if i % 14 == 3 else [7, 3, 9], maxsz=3, nlevels=1 + (i // 7) % 2)
+            g.pop("base_blocks", None)
+            g.pop("full_refine", None)
         if i % 3 == 1:      # far from the origin: coordinate / cell size of 1e5 .. 1e7
             g["origin"] = [rng.choice([1.0e5, -3.0e5, 2.5e6]) for _ in range(3)]
         cs.append({"kind": "geom", "gen": g, "sel_seed": seed * 53 + i, "npos": 8 if tier == "quick" else 12, "fmt": dict(ref_ratio_extra=rng.choice([0, 0, 1, 3]), trailing_blank=rng.random() < 0.7, close_blank=rng.random() < 0.3, floatfmt=rng.choice(["repr", "17g"]))})
